@@ -312,6 +312,19 @@ func accumulatedIndex(tc *TermCtx, idx *Term) (bool, string) {
 				zero = true
 			case e.Key() == idx.Key():
 				self = true
+			case e.Op == "phi":
+				// the step is taken on several branches of the loop body (with and without a count to read, say): every
+				// one of them adds the same decoded delta to the accumulator
+				all := len(tc.PhiEdges(e)) > 0
+				for _, ie := range tc.PhiEdges(e) {
+					if ie.Key() != idx.Key() {
+						all = false
+					}
+				}
+				if !all {
+					return false, "accumulator fed from " + e.Key()
+				}
+				self = true
 			default:
 				return false, "accumulator fed from " + e.Key()
 			}
